@@ -290,6 +290,35 @@ def run(R):
     # with the awaited task uncomputed)
     from .c05 import selection_rules
     selection_rules(R, ro, "C03.TERMINATE")
+    # ---- progress: once a pending batch has been selected it is flushed -- the only way out of the flush-one step without a
+    # flush is "nothing is pending".  wait_for loops (walk, flush one) until the awaited task is done; a step that can decline to
+    # flush the batch the blocked tasks wait for, although one was selected, lets that loop spin forever on a finite computation
+    fo = ro.flush_one_method()
+    focfg = cfg_of(fo)
+    sel = ro.select_method()
+    selcalls = ro.calls_to(fo, [sel])
+    R.need(len(selcalls) == 1 and isinstance(selcalls[0][0].ast, ast.Assign) and isinstance(selcalls[0][0].ast.targets[0], ast.Name),
+           "idiom: %s does not bind the selected batch to one local" % fo.qualname)
+    bv = selcalls[0][0].ast.targets[0].id
+    fms = ro.flush_method()
+    flushes = [n for n, c in ro.calls_to(fo, fms) if c.args and q.src(c.args[0]) == bv] + [n for n, c in ro.flush_sites_in(fo)]
+
+    def none_edge(nd):
+        if nd.kind != "test":
+            return None
+        k, s_, pos = q.atom_test(nd.ast)
+        if k == "isnone" and s_ == bv:
+            return "T" if pos else "F"
+        if k == "truth" and s_ == bv:
+            return "F" if pos else "T"
+        return None
+    starts = [e.dst for e in focfg.out_edges(selcalls[0][0].id, N) if e.label != "exc"]
+    p = focfg.find_path(starts, [focfg.exit], N, cut_nodes=flushes,
+                        keep_edge=lambda e: not (none_edge(focfg.nodes[e.src]) is not None and e.label == none_edge(focfg.nodes[e.src])))
+    R.check(p is None and flushes, "C03.PROGRESS", fo.qualname, R.site(fo),
+            "a selected batch is always flushed: the flush-one step returns without flushing only when no batch is pending",
+            "%s can return without flushing although a pending batch was selected: the tasks blocked on it stay blocked, wait_for walks, re-schedules and "
+            "skips again - value() of a finite computation never returns" % fo.qualname, focfg.fmt_path(p) if p else None)
     R.require_min("C03.GEN-TYPESTATE", 5)
     R.require_min("C03.DISPATCH-UNCOMPUTED", 3)
     R.require_min("C03.LAZY", 5)
